@@ -222,17 +222,9 @@ int main(int argc, char** argv) {
     };
     for (auto& a : allowedJoint) a = normalise(a);
 
-#if defined(__SANITIZE_THREAD__)
+    // executions run inside the worker process (fork costs ~30 ms here and is far slower under TSan): a fresh
+    // world per execution, one discarded warm-up run brings caches to their steady state
     const bool inProc = true;
-#elif defined(__has_feature)
-#if __has_feature(thread_sanitizer)
-    const bool inProc = true;
-#else
-    const bool inProc = false;
-#endif
-#else
-    const bool inProc = false;
-#endif
     vx::Explorer ex;
     vx::Config cfg;
     cfg.bound = progs[idx].bound;
@@ -291,6 +283,42 @@ int main(int argc, char** argv) {
       std::string got = normalise(e.outcome);
       bool ok = false;
       for (auto& a : allowedJoint) ok = ok || a == got;
+      if (!ok && e.status == 1) {
+        // Cancel() racing with an evaluation on ANOTHER thread is not a serial order of whole operations: the
+        // evaluation may legitimately observe the flag midway and return Cancelled (14) (that outcome is C15's
+        // all-or-nothing statement).  So a WithContext.Status whose thread differs from a ctx.Cancel's thread may
+        // read either its serial value or 14.
+        auto split = [](const std::string& x) {
+          std::vector<std::string> t;
+          size_t b = 0, p;
+          while ((p = x.find('|', b)) != std::string::npos) {
+            t.push_back(x.substr(b, p - b));
+            b = p + 1;
+          }
+          return t;
+        };
+        std::vector<int> opAt, thrAt;
+        for (size_t t = 0; t < pr.size(); ++t)
+          for (int o : pr[t]) {
+            opAt.push_back(o);
+            thrAt.push_back((int)t);
+          }
+        auto gt = split(got);
+        for (auto& a : allowedJoint) {
+          auto at = split(a);
+          if (at.size() != gt.size() || gt.size() < opAt.size()) continue;
+          bool match = true;
+          for (size_t k = 0; k < at.size() && match; ++k) {
+            if (at[k] == gt[k]) continue;
+            bool wild = false;
+            if (k < opAt.size() && std::string(O[opAt[k]].name) == "R.WithContext.Status" && gt[k] == "14")
+              for (size_t j = 0; j < opAt.size(); ++j)
+                if (std::string(O[opAt[j]].name) == "ctx.Cancel" && thrAt[j] != thrAt[k]) wild = true;
+            if (!wild) match = false;
+          }
+          ok = ok || match;
+        }
+      }
       if (!ok && !reported) {
         reported = true;
         std::string kind = e.status == 2 ? "deadlock" : (e.status == 1 ? "non-serializable" : "crash");
